@@ -1,0 +1,22 @@
+//go:build verif
+// +build verif
+
+package api
+
+import "net/http"
+
+// VerifIPAccessControlFunc exposes getIPAccessControlFunc to the out-of-tree
+// runtime verification harness.
+func VerifIPAccessControlFunc(whitelist []string, lanPrefix []string) (func(addr string) bool, error) {
+	return getIPAccessControlFunc(whitelist, lanPrefix)
+}
+
+// VerifAccessControlHandler exposes accessControlHandler.
+func VerifAccessControlHandler(h http.Handler, isAllowedAddress func(addr string) bool) http.Handler {
+	return accessControlHandler(h, isAllowedAddress)
+}
+
+// VerifGatewayChain wraps h exactly the way Run wraps the gateway mux.
+func VerifGatewayChain(h http.Handler, isAllowedAddress func(addr string) bool) http.Handler {
+	return accessControlHandler(concurrentRequestHandler(maxBytesHandler(h)), isAllowedAddress)
+}
